@@ -51,6 +51,8 @@ class Codec:
 
     def _schema_mode(self) -> str:
         i = self.info
+        if i.key == 'addressing_types.HeaderInformationBlock':
+            return 'header'     # its members are the wsa:* children of s12:Header (validated there, lax)
         if self.ctx is None:
             return 'none:no schema type known for this class (validated as member of its host classes)'
         if i.kind in ('state', 'descriptor'):
@@ -59,8 +61,6 @@ class Codec:
             if self.ctx.abstract:
                 return 'none:type is abstract in the schema'
             return i.kind
-        if i.key == 'addressing_types.HeaderInformationBlock':
-            return 'header'
         if self.home[0] == 'child':
             return 'none:anonymous type of a child element (validated as member of its host classes)'
         if self.ctx.abstract:
@@ -479,9 +479,6 @@ def _first_diff(a: str, b: str) -> str:
     return f'length {len(a)} vs {len(b)}'
 
 
-_RX_QUOTED = re.compile(r"'[^']*'")
-
-
 _SCHEMA_KINDS = (('is not expected', 'unexpected_element'), ('Missing child', 'missing_child'), ('is required but missing', 'missing_attribute'),
                  ('is not allowed', 'not_allowed'), ('not a valid value of the atomic type', 'bad_atomic_value'),
                  ('not a valid value of the list type', 'bad_list_value'), ('union type', 'bad_union_value'),
@@ -783,7 +780,7 @@ def run(ctx: core.Ctx):
     njobs = 16 if ctx.quick else 48
     jobs = [['w_classes', {'classes': [i.key for i in order[k::njobs]], 'budget': budget, 'sample': k < 3}] for k in range(njobs)]
     jobs.append(['w_observations', {}])
-    core.fanout(ctx, MODULE, 'dispatch', jobs, timeout=ctx.pick(300.0, 2400.0))
+    core.fanout(ctx, MODULE, 'dispatch', jobs, timeout=ctx.pick(600.0, 3000.0))
     ctx.floor('classes.exercised', int(len(infos) * 0.9))
     ctx.floor('schema.validated', ctx.pick(15000, 500000))
     ctx.floor('roundtrip.canon_equal', ctx.pick(20000, 600000))
